@@ -53,8 +53,25 @@ pub const K_GRADUAL_COST: &str = "C05/gradual-steps-times-sections";
 pub const GRADUAL_COST_LIMIT: f64 = 1e6;
 
 pub fn gradual_cost(explicit: &Beatmap, clock_rate: f64, steps: u32) -> f64 {
-    let (Some(first), Some(last)) = (explicit.hit_objects.first(), explicit.hit_objects.last()) else { return 0.0 };
-    let span = (last.start_time - first.start_time).abs() + 10_000.0;
+    let Some(first) = explicit.hit_objects.first() else { return 0.0 };
+    // the map's time span including the duration of its last/longest objects (a 97-repeat slider at
+    // 1 BPM and SV 0.1 lasts 55 hours although it passes check_suspicion)
+    let mut end = first.start_time;
+    for h in &explicit.hit_objects {
+        let dur = match &h.kind {
+            HitObjectKind::Circle => 0.0,
+            HitObjectKind::Spinner(s) => s.duration,
+            HitObjectKind::Hold(s) => s.duration,
+            HitObjectKind::Slider(s) => {
+                let beat_len = explicit.timing_points.iter().rev().find(|p| p.time <= h.start_time).or(explicit.timing_points.first()).map_or(500.0, |p| p.beat_len);
+                let sv = explicit.difficulty_points.iter().rev().find(|p| p.time <= h.start_time).map_or(1.0, |p| p.slider_velocity);
+                let len = s.expected_dist.unwrap_or_else(|| s.control_points.windows(2).map(|w| f64::from((w[1].pos - w[0].pos).length())).sum());
+                (s.span_count() as f64) * len / (100.0 * explicit.slider_multiplier * sv).max(1e-9) * beat_len
+            }
+        };
+        end = end.max(h.start_time + dur.max(0.0));
+    }
+    let span = (end - first.start_time).abs() + 10_000.0;
     let sections = span / clock_rate.max(1e-6) / 400.0;
     sections * f64::from(steps.max(1))
 }
